@@ -19,9 +19,9 @@ RULE = (
 ASSUMPTIONS = ["the class is parsed from its unparsed *text* (what a user has), not from the emitted node",
                "prose kept below the wrap width (wrapping is C18)"]
 CORE_ALLOWED = ("kwargs_param", "multiline_summary", "float_default", "negative_int", "zero_int", "bool_false", "none_default",
-                "prose_trailing_stop", "required_bool", "no_params", "str_with_space", "default_words", "prose_punct", "optional_prose", "union_with_str")
+                "prose_trailing_stop", "required_bool", "no_params", "str_with_space", "default_words", "prose_punct", "optional_prose", "union_with_str", "str_with_dot")
 FRONTIER_KNOBS = irprops.frontier_knobs((
-    "untyped_param", "undocumented_param", "default_without_prose", "bare_param", "str_with_dot", "empty_str",
+    "untyped_param", "undocumented_param", "default_without_prose", "bare_param", "empty_str",
     "str_with_quote", "code_default", "code_default_dot", "int_under_nonscalar_type",
     "nodefault_after_default", "returns", "returns_default", "returns_untyped", "returns_undocumented", "returns_only",
     "multiline_prose", "foreign_tokens",
